@@ -394,9 +394,12 @@ def rule_whocall(run):
     params = rfd.params
     mapping = {}
     for n in walk_no_nested(rfd.node):
-        if isinstance(n, ast.Assign) and isinstance(n.value, ast.Dict):
+        if isinstance(n, (ast.Assign, ast.Return)) and isinstance(n.value, ast.Dict):
             for k, val in zip(n.value.keys, n.value.values):
-                if const_str(k) and isinstance(val, ast.Name): mapping[const_str(k)] = val.id
+                if k is not None and const_str(k) and isinstance(val, ast.Name): mapping[const_str(k)] = val.id
+        if isinstance(n, ast.Assign) and len(n.targets) == 1 and isinstance(n.targets[0], ast.Subscript) and const_str(n.targets[0].slice) \
+           and isinstance(n.value, ast.Name):
+            mapping[const_str(n.targets[0].slice)] = n.value.id         # (a loop over a literal list arrives unrolled: N10)
         if isinstance(n, ast.For) and isinstance(n.iter, (ast.List, ast.Tuple)):
             for st in n.body:
                 if isinstance(st, ast.Assign) and isinstance(st.targets[0], ast.Subscript) and \
@@ -404,12 +407,14 @@ def rule_whocall(run):
                     for e in n.iter.elts:
                         if const_str(e): mapping[const_str(e)] = st.value.id
     for typ in ('e', 'f', 'g'):
-        run.check(len(params) > 0 and mapping.get(typ) == params[0],
-                  'fixed_format_file.read_function_dict :: type %s -> float reader' % typ,
-                  "format type %r is not mapped to the float reader parameter" % typ, where=rfd.where())
-    run.check(len(params) > 1 and mapping.get('d') == params[1],
-              'fixed_format_file.read_function_dict :: type d -> int reader',
-              "format type 'd' is not mapped to the int reader parameter", where=rfd.where())
+        k_ = 'fixed_format_file.read_function_dict :: type %s -> float reader' % typ
+        if typ not in mapping: run.unknown(k_, 'no entry for this type recognised in the conversion dictionary', where=rfd.where())
+        else: run.check(len(params) > 0 and mapping.get(typ) == params[0], k_,
+                        "format type %r is mapped to `%s`, not to the float reader parameter" % (typ, mapping.get(typ)), where=rfd.where())
+    k_ = 'fixed_format_file.read_function_dict :: type d -> int reader'
+    if 'd' not in mapping: run.unknown(k_, 'no entry for this type recognised in the conversion dictionary', where=rfd.where())
+    else: run.check(len(params) > 1 and mapping.get('d') == params[1], k_,
+                    "format type 'd' is mapped to `%s`, not to the int reader parameter" % mapping.get('d'), where=rfd.where())
     # 2. defaults of the t2incon parser / class
     for qual in ('t2incons.t2incon_parser.__init__', 't2incons.t2incon.__init__'):
         fi = prog.func(qual)
